@@ -12,26 +12,30 @@ Every theorem quantifies over ALL strings (no length bound).  Numbers are tokens
 compared by DENOTED VALUE (`Spec.OMRoundtrip.tsDenote` / `otsDenote`): the wire format carries seconds with nine
 fractional digits, so `1.5` comes back as `Timestamp(1, 500000000)`.
 
-Line level (all proved)
-  om_help_roundtrip, om_labels_roundtrip, om_labels_roundtrip_named, om_timestamp_roundtrip, om_exemplar_roundtrip_partial,
-  om_sample_line_roundtrip_partial, not_nh_on_rendered_line.
-Hypotheses forced by the proofs, each run against the real code at the excluded point (witness theorem beside it):
-* F18  `exemplar_quote_counterexample` — the exemplar state machine `_parse_remaining_text` flips its in-quotes flag on
-  every '"', also an escaped one: an exemplar label name or value containing '"' derails it
-  (`c.inc(1, {'a': 'x"y'})` → `c_total 1.0 # {a="x\"y"} 1.0` → ValueError).  `ExOK.noQuote` excludes exactly that.
-* F10  `negative_timestamp_counterexample` — `Timestamp(sec < 0, nsec ≠ 0)` stores a negative `nsec`; `Timestamp.__str__`
-  writes it as `-1.-500000000`, which the parser rejects.  Both directions: `Timestamp(-3, 5)` exposed and parsed, and the
-  accepted document `a 1 -1.5` parsed, exposed, parsed.  `TsOK` asks `nsec = 0` when `sec < 0`.
-* F10b `negative_subsecond_counterexample` — a negative float timestamp above -1: `-0.5` is read as
-  `Timestamp(int('-0'), 500000000)` = +0.5 (the sign is lost; a `Timestamp` cannot represent it).
-* F28  `exponent_timestamp_counterexample` — a float timestamp whose `repr` is in exponent form with nine or more mantissa
-  digits (`1.234567891e-05`, `1.2345678912345678e+16`) is read by the `aaaa.bbbb` branch as `Timestamp(1, 234567891)`.
+Line level (all proved, no finding left open at this level)
+  om_help_roundtrip, om_labels_roundtrip, om_labels_roundtrip_named, om_timestamp_roundtrip, om_exemplar_roundtrip,
+  om_sample_line_roundtrip, not_nh_on_rendered_line.
+Domain of the line level: label names accepted by the library's own `_validate_labelname` (`LabelsOK`, as in C03 — names it rejects
+reach the exposition unvalidated: known finding F20b); finite timestamps (`TsOK`: every `int`, every `Timestamp` object, every
+finite `float`; `nan`/`inf` float timestamps are written by the exposition and rejected by the parser ON PURPOSE — "Invalid
+timestamp" — so they are rule content, not a defect).
+
+Repaired in /repo while this property was built; each repair is a T1 flag the model branches on, the theorems below use it
+through `decide`, so reverting a fix breaks them and the harness produces the input:
+* F18 (bc8d08a, `remEscapeAware`)  the exemplar state machine flipped its in-quotes flag on every '"', also an escaped one:
+  `c.inc(1, {'a': 'x"y'})` → `c_total 1.0 # {a="x\"y"} 1.0` → ValueError.  Regression: `exemplar_quote_regression`.
+* F10 (7b52129, `stampAbsNsec`)  `Timestamp(sec < 0, nsec ≠ 0)` was written `-1.-500000000`.  Regression:
+  `negative_timestamp_regression` (expose → parse of `Timestamp(-3, 5)`, parse → expose → parse of `a 1 -1.5`).
+* F10b, F28 (64745db, `tsFracStrict`)  `-0.5` was read as `Timestamp(0, 500000000)` = +0.5; `1.234567891e-05` as
+  `Timestamp(1, 234567891)`.  Both now stay floats.  Regressions: `negative_subsecond_regression`, `exponent_timestamp_regression`.
+Open (known finding):
 * F17  `count_without_sum_counterexample` — a histogram group with a negative bound and a `_count` is rejected with and
   without `_sum`, and the in-process `Histogram` exposes exactly `_count` without `_sum` for negative bounds.
 -/
 import PromVerif.Lemmas.OMRtRef
 import PromVerif.Lemmas.OMRtDoc3
 import PromVerif.Lemmas.OMRtConv
+import PromVerif.Props.C15
 
 set_option autoImplicit false
 
@@ -85,54 +89,61 @@ example : joinStr [','] ((sortByKey [(cs!"b", cs!"\\\"\n,}"), (cs!"a b", [])]).m
 
 -- timestamps ------------------------------------------------------------------------------------------------------------
 
-/-- **the three timestamp forms read back to the denoted value**: `int` n → `Timestamp(n, 0)`; `Timestamp(sec, nsec)` written
-`f"{sec}.{nsec:09d}"` → the same `Timestamp`; a float by its `repr` → through the `aaaa.bbbb` branch (plain decimal form:
-`1.5` → `Timestamp(1, 500000000)`, digits beyond the ninth dropped) or through `float()` (exponent form) -/
+/-- **the three timestamp forms read back to the same instant** (`tsSame`: equal denoted values, or the very same double):
+`int` n → `Timestamp(n, 0)`; every `Timestamp(sec, nsec)` object, written `f"{sec}.{abs(nsec):09d}"`, → the same `Timestamp`; a
+float by its `repr` → through the `aaaa.bbbb` branch (plain decimal form: `1.5` → `Timestamp(1, 500000000)`, digits beyond the
+ninth dropped) or through `float()` (exponent form; `-0.…`) -/
 theorem om_timestamp_roundtrip (P : Params) (hI : IntLaw P.pyInt) (t : Ts) (h : TsOK P t) :
-    ∃ o, parseTimestamp P (OMExpo.tsStr t) = .ok (some o) ∧ tsDenote P.pyFloat t = some (otsDenote o) :=
+    ∃ o, parseTimestamp P (OMExpo.tsStr t) = .ok (some o) ∧ tsSame P t o :=
   ts_roundtrip P hI t h
 
 /-- the symbolic number instance satisfies the `int()` law -/
 theorem intLaw_satisfiable : IntLaw refP.pyInt := refP_intLaw
 
-example : TsOK refP (.int (-5)) ∧ TsOK refP (.stamp 3 5) ∧ TsOK refP (.stamp (-3) 0) :=
+example : TsOK refP (.int (-5)) ∧ TsOK refP (.stamp 3 5) ∧ TsOK refP (.stamp (-3) (-5)) :=
   ⟨trivial, by unfold TsOK; decide, by unfold TsOK; decide⟩
-example : TsOK refP (.flt cs!"-1.5") := Or.inl ⟨true, cs!"1", cs!"5", rfl, by decide, by decide, by decide, by decide, by decide⟩
-example : TsOK refP (.flt cs!"1e+16") := by
-  refine Or.inr ⟨by decide, by decide, by decide, ?_, 10 ^ 40 + tokCode cs!"1e+16", by decide, by decide, by decide⟩
-  intro a p h; cases h
+example : TsOK refP (.flt cs!"-1.5") :=
+  Or.inl ⟨true, cs!"1", cs!"5", rfl, by decide, by decide, by decide, by decide, fun _ h => absurd h (by decide)⟩
+example : TsOK refP (.flt cs!"-0.5") :=
+  Or.inl ⟨true, cs!"0", cs!"5", rfl, by decide, by decide, by decide, by decide, fun _ _ => ⟨1000000005, by decide, by decide, by decide⟩⟩
+example : TsOK refP (.flt cs!"1e+16") :=
+  Or.inr ⟨by decide, by decide, by decide, 10 ^ 40 + tokCode cs!"1e+16", by decide, by decide, by decide⟩
 example : OMExpo.tsStr (.stamp 3 5) = cs!"3.000000005" := by
   simp [OMExpo.tsStr, OMExpo.stampStr, intStr, decDigits_small, zpad]; decide
 example : parseTimestamp refP cs!"3.000000005" = .ok (some (.stamp 3 5)) := by decide
 example : parseTimestamp refP cs!"1.5" = .ok (some (.stamp 1 500000000)) := by decide
 example : tsDenote refP.pyFloat (.flt cs!"1.5") = some (.nanos 1500000000) := by decide
 
-/-- **F10, kernel-checked**: a `Timestamp` with a negative second count and a fraction is written with two minus signs and
-its own rendering is rejected — expose → parse of `Timestamp(-3, 5)` (stored `nsec = -5`), and parse → expose → parse of the
-accepted document line `a 1 -1.5` -/
-theorem negative_timestamp_counterexample :
-    OMExpo.tsStr (.stamp (-3) (-5)) = cs!"-3.-00000005" ∧ parseTimestamp refP cs!"-3.-00000005" = .error .valueError ∧
+/-- **F10 repaired (7b52129), kernel-checked regression**: a `Timestamp` with a negative second count and a fraction is written
+with ONE minus sign and read back as itself — expose → parse of `Timestamp(-3, 5)` (stored `nsec = -5`), and parse → expose →
+parse of the accepted document line `a 1 -1.5` -/
+theorem negative_timestamp_regression :
+    OMExpo.tsStr (.stamp (-3) (-5)) = cs!"-3.000000005" ∧ parseTimestamp refP cs!"-3.000000005" = .ok (some (.stamp (-3) (-5))) ∧
     parseTimestamp refP cs!"-1.5" = .ok (some (.stamp (-1) (-500000000))) ∧
-    OMExpo.tsStr (.stamp (-1) (-500000000)) = cs!"-1.-500000000" ∧
+    OMExpo.tsStr (.stamp (-1) (-500000000)) = cs!"-1.500000000" ∧
+    parseTimestamp refP cs!"-1.500000000" = .ok (some (.stamp (-1) (-500000000))) ∧
     parseTimestamp refP cs!"-1.-500000000" = .error .valueError := by
-  refine ⟨?_, by decide, by decide, ?_, by decide⟩
+  refine ⟨?_, by decide, by decide, ?_, by decide, by decide⟩
   · show OMExpo.stampStr (Int.negSucc 2) (Int.negSucc 4) = _
-    simp [OMExpo.stampStr, intStr, decDigits_small, zpad]; decide
+    simp [OMExpo.stampStr, intStr, decDigits_small, zpad, stampAbs_on]; decide
   · have h : decDigits 500000000 = cs!"500000000" := by
       simp [decDigits_step, decDigits_small]; decide
     show OMExpo.stampStr (Int.negSucc 0) (Int.negSucc 499999999) = _
-    simp [OMExpo.stampStr, intStr, decDigits_small, zpad, h]; decide
+    simp [OMExpo.stampStr, intStr, decDigits_small, zpad, h, stampAbs_on]; decide
 
-/-- **F10b, kernel-checked**: a negative float timestamp above -1 loses its sign -/
-theorem negative_subsecond_counterexample :
-    parseTimestamp refP cs!"-0.5" = .ok (some (.stamp 0 500000000)) ∧
-    otsDenote (.stamp 0 500000000) = .nanos 500000000 ∧ tsDenote refP.pyFloat (.flt cs!"-0.5") = some (.nanos (-500000000)) := by
+/-- **F10b repaired (64745db), kernel-checked regression**: a negative float timestamp above -1 keeps its sign — it stays the
+float `float()` reads -/
+theorem negative_subsecond_regression :
+    parseTimestamp refP cs!"-0.5" = .ok (some (.flt 1000000005)) ∧ refP.pyFloat cs!"-0.5" = some 1000000005 ∧
+    refDecode 1000000005 = .fin (-500000000) ∧ tsDenote refP.pyFloat (.flt cs!"-0.5") = some (.nanos (-500000000)) := by
   decide
 
-/-- **F28, kernel-checked**: an exponent-form float timestamp with nine mantissa digits is misread by the `aaaa.bbbb` branch -/
-theorem exponent_timestamp_counterexample :
-    parseTimestamp refP cs!"1.234567891e-05" = .ok (some (.stamp 1 234567891)) ∧
-    tsDenote refP.pyFloat (.flt cs!"1.234567891e-05") = some (.float (10 ^ 40 + tokCode cs!"1.234567891e-05")) := by decide
+/-- **F28 repaired (64745db), kernel-checked regression**: an exponent-form float timestamp with nine mantissa digits is no
+longer read by the `aaaa.bbbb` branch -/
+theorem exponent_timestamp_regression :
+    parseTimestamp refP cs!"1.234567891e-05" = .ok (some (.flt (10 ^ 40 + tokCode cs!"1.234567891e-05"))) ∧
+    refP.pyFloat cs!"1.234567891e-05" = some (10 ^ 40 + tokCode cs!"1.234567891e-05") ∧
+    parseTimestamp refP cs!"1.2345678912345678e+16" = .ok (some (.flt (10 ^ 40 + tokCode cs!"1.2345678912345678e+16"))) := by decide
 
 -- the sample line ---------------------------------------------------------------------------------------------------------
 
@@ -140,20 +151,18 @@ theorem exponent_timestamp_counterexample :
 value × {no / int / float / `Timestamp`} timestamp × {no exemplar / exemplar with any label names accepted by
 `_validate_exemplar`, any values within the 128-character limit, with or without timestamp}.
 
-`_partial`: `SampleOKom.exemplar` carries `ExOK.noQuote` — no '"' in exemplar label names/values (finding F18, witness
-`exemplar_quote_counterexample`); `TsOK` excludes the timestamps of F10/F10b/F28 (witnesses above).  Nothing else is
-missing at line level. -/
-theorem om_sample_line_roundtrip_partial (P : Params) (hI : IntLaw P.pyInt) (fam : Family) (s : Sample) (h : SampleOKom P s)
+Hypotheses: `SampleOKom` — label names accepted by `_validate_labelname` (sample and exemplar), number tokens read as the
+parameters say, `TsOK` timestamps (all finite ones), the 128-character limit on the exemplar.  No finding is excluded. -/
+theorem om_sample_line_roundtrip (P : Params) (hI : IntLaw P.pyInt) (fam : Family) (s : Sample) (h : SampleOKom P s)
     (helig : s.exemplar.isSome = true → OMExpo.isValidExemplarMetric fam.typ fam.name s.name = true) :
     ∃ body o, OMExpo.sampleLine fam s = .ok (body ++ ['\n']) ∧ parseSample P body = .ok o ∧ SampleMatches P s o := by
   obtain ⟨o, h1, h2⟩ := line_roundtrip P hI s h
   exact ⟨lineBody s, o, sampleLine_eq fam s helig, h1, h2⟩
 
 /-- **the exemplar tail ` # {labels} value [timestamp]` through the character state machine**: after any value token and
-optional timestamp, the exemplar comes back with its label set, value and timestamp.
-
-`_partial`: hypothesis `ExOK.noQuote` = no '"' in exemplar label names/values (F18). -/
-theorem om_exemplar_roundtrip_partial (P : Params) (hI : IntLaw P.pyInt) (value : Str) (ts : Option TsIn) (e : Exemplar)
+optional timestamp, the exemplar comes back with its label set, value and timestamp — label names and values with any
+characters, double quotes and backslashes included (the machine follows backslash escaping since bc8d08a) -/
+theorem om_exemplar_roundtrip (P : Params) (hI : IntLaw P.pyInt) (value : Str) (ts : Option TsIn) (e : Exemplar)
     (hv : ∃ b, ValTok P (Utils.floatToGoString value) b) (hts : ∀ t, ts = some t → TsOK P t.ts) (he : ExOK P e) :
     ∃ vb ots oex, parseRemainingText P (Utils.floatToGoString value ++ tsPart ts ++ OMExpo.exemplarStr e) =
         .ok (.flt vb, ots, some oex) ∧
@@ -178,11 +187,11 @@ theorem not_nh_on_rendered_line (P : Params) (fam : Family) (s : Sample) (h : Sa
   ⟨lineBody s, sampleLine_eq fam s helig, line_not_nh P s h, parseNhSample_of_detect P _ _ (line_not_nh P s h)⟩
 
 /-- non-vacuity: a bucket of a histogram with a quoted UTF-8 name, adversarial label values, a float timestamp and an exemplar
-with a quoted label name, a backslash and a line feed in its value and a `Timestamp` -/
+with a quoted label name, a double quote, a backslash and a line feed in its value and a negative `Timestamp` -/
 def exFam : Family := ⟨cs!"h é", cs!"help", cs!"histogram", [], []⟩
 def exSample : Sample :=
   ⟨cs!"h é_bucket", [(cs!"le", cs!"1.0"), (cs!"l", cs!"x\\\"\n,} # {")], cs!"3.0", some ⟨.flt cs!"1.5", 1500⟩,
-   some ⟨[(cs!"trace id", cs!"a\\b\nc}"), (cs!"k", [])], cs!"0.5", some (.stamp 7 5)⟩⟩
+   some ⟨[(cs!"trace id", cs!"a\\b\n\"c}"), (cs!"k\"", [])], cs!"0.5", some (.stamp (-7) (-5))⟩⟩
 
 theorem valTok_ref (tok : Str) (b : Nat) (hne : tok ≠ []) (hc : tok.all Spec.OMRoundtrip.isNumChar = true) (hi : refInt? tok = none)
     (hf : refFloat? tok = some b) : ValTok refP tok b :=
@@ -191,31 +200,30 @@ theorem valTok_ref (tok : Str) (b : Nat) (hne : tok ≠ []) (hc : tok.all Spec.O
 example : SampleOKom refP exSample := by
   refine ⟨by decide, ⟨_, valTok_ref cs!"3.0" _ (by decide) (by decide) (by decide) (by decide : refFloat? cs!"3.0" = some 6000000004)⟩, ?_, ?_⟩
   · intro t ht; cases ht
-    exact Or.inl ⟨false, cs!"1", cs!"5", rfl, by decide, by decide, by decide, by decide, by decide⟩
+    exact Or.inl ⟨false, cs!"1", cs!"5", rfl, by decide, by decide, by decide, by decide, fun h => absurd h (by decide)⟩
   · intro e he; cases he
-    refine ⟨by decide, by decide, by decide, ⟨_, valTok_ref cs!"0.5" _ (by decide) (by decide) (by decide) (by decide : refFloat? cs!"0.5" = some 1000000004)⟩, ?_⟩
+    refine ⟨by decide, by decide, ⟨_, valTok_ref cs!"0.5" _ (by decide) (by decide) (by decide) (by decide : refFloat? cs!"0.5" = some 1000000004)⟩, ?_⟩
     intro t ht; cases ht; unfold TsOK; decide
 
 set_option maxRecDepth 100000 in
 example : OMExpo.sampleLine { exFam with } { exSample with exemplar := exSample.exemplar.map (fun e => { e with ts := none }) } =
-    .ok cs!"{\"h é_bucket\", l=\"x\\\\\\\"\\n,} # {\",le=\"1.0\"} 3.0 1.5 # {k=\"\",\"trace id\"=\"a\\\\b\\nc}\"} 0.5\n" := by
+    .ok cs!"{\"h é_bucket\", l=\"x\\\\\\\"\\n,} # {\",le=\"1.0\"} 3.0 1.5 # {\"k\\\"\"=\"\",\"trace id\"=\"a\\\\b\\n\\\"c}\"} 0.5\n" := by
   decide
 
-example : False → OMExpo.sampleLine exFam exSample =
-    .ok cs!"{\"h é_bucket\", l=\"x\\\\\\\"\\n,} # {\",le=\"1.0\"} 3.0 1.5 # {k=\"\",\"trace id\"=\"a\\\\b\\nc}\"} 0.5 7.000000005\n" := by
-  intro h; cases h
-
 set_option maxRecDepth 100000 in
-/-- **F18, kernel-checked**: an exemplar label value with a double quote — written `\"` by the exposition — makes the
-parser reject the line the exposition wrote (`c.inc(1, {'a': 'x"y'})`); likewise a quoted exemplar label NAME with a quote -/
-theorem exemplar_quote_counterexample :
+/-- **F18 repaired (bc8d08a), kernel-checked regression**: an exemplar label value with a double quote — written `\"` by the
+exposition — is read back (`c.inc(1, {'a': 'x"y'})`); likewise a quoted exemplar label NAME with a quote -/
+theorem exemplar_quote_regression :
     OMExpo.sampleLine ⟨cs!"c", [], cs!"counter", [], []⟩ ⟨cs!"c_total", [], cs!"1.0", none, some ⟨[(cs!"a", cs!"x\"y")], cs!"1.0", none⟩⟩ =
       .ok cs!"c_total 1.0 # {a=\"x\\\"y\"} 1.0\n" ∧
-    parseSample refP cs!"c_total 1.0 # {a=\"x\\\"y\"} 1.0" = .error .valueError ∧
-    parseLabels false cs!"a=\"x\\\"y\"" true = .ok [(cs!"a", cs!"x\"y")] ∧
+    parseSample refP cs!"c_total 1.0 # {a=\"x\\\"y\"} 1.0" =
+      .ok ⟨cs!"c_total", some [], some (.flt 2000000004), none, some ⟨[(cs!"a", cs!"x\"y")], .flt 2000000004, none⟩, none⟩ ∧
     OMExpo.sampleLine ⟨cs!"c", [], cs!"counter", [], []⟩ ⟨cs!"c_total", [], cs!"1.0", none, some ⟨[(cs!"a\"b", cs!"v")], cs!"1.0", none⟩⟩ =
       .ok cs!"c_total 1.0 # {\"a\\\"b\"=\"v\"} 1.0\n" ∧
-    parseSample refP cs!"c_total 1.0 # {\"a\\\"b\"=\"v\"} 1.0" = .error .valueError := by
+    parseSample refP cs!"c_total 1.0 # {\"a\\\"b\"=\"v\"} 1.0" =
+      .ok ⟨cs!"c_total", some [], some (.flt 2000000004), none, some ⟨[(cs!"a\"b", cs!"v")], .flt 2000000004, none⟩, none⟩ ∧
+    parseSample refP cs!"c_total 1.0 # {a=\"\\\\\\\"{a=\\\"b\\\"} 1\"} +Inf" =
+      .ok ⟨cs!"c_total", some [], some (.flt 2000000004), none, some ⟨[(cs!"a", cs!"\\\"{a=\"b\"} 1")], .flt 1, none⟩, none⟩ := by
   refine ⟨by decide, by decide, by decide, by decide, by decide⟩
 
 -- the document ---------------------------------------------------------------------------------------------------------------
@@ -258,7 +266,6 @@ Intermediate result `doc_parse` (no rule hypothesis): `omParse (generateLatest f
 handling and the family state machine are inverse to the exposition and what is left is the rule layer on the exposed values.
 
 `_partial`, what is missing:
-* the line-level exclusions inherited through `FamOK` (F18 `ExOK.noQuote`; F10/F10b/F28 `TsOK`);
 * `RuleClean` is stated through the parser's own rule layer on values (decidable, evaluated on every generated case by the
   harness through its own Python copy of the rules); its equivalence with "none of the `Spec.OMRules` predicates of C15
   holds" is not proved;
@@ -269,7 +276,7 @@ handling and the family state machine are inverse to the exposition and what is 
 theorem om_roundtrip_partial (P : Params) (hI : IntLaw P.pyInt) (fs : List Family) (h : ExpressibleOM P fs) :
     ∃ text fs', OMExpo.generateLatest fs = .ok text ∧ omParse P text = .ok fs' ∧ Forall2 (FamilyMatches P) fs fs' := by
   obtain ⟨⟨hok, hadj⟩, hrc⟩ := h
-  obtain ⟨text, h1, h2⟩ := doc_parse P hI fs hok hadj
+  obtain ⟨text, h1, _, h2⟩ := doc_parse P hI fs hok hadj
   refine ⟨text, fs.map (expFamily P), h1, by rw [h2]; exact hrc, ?_⟩
   apply forall₂_map_of
   intro fam hf
@@ -281,8 +288,9 @@ theorem om_roundtrip_partial (P : Params) (hI : IntLaw P.pyInt) (fs : List Famil
 /-- the same without the rule hypothesis: what the parser does with an exposition is decided by its rule layer alone -/
 theorem om_exposition_parse (P : Params) (hI : IntLaw P.pyInt) (fs : List Family) (h : Expressible P fs) :
     ∃ text, OMExpo.generateLatest fs = .ok text ∧
-      omParse P text = rulesOnly P (fs.map (fun fam => (fam, fam.samples.map (parsedOf P)))) :=
-  doc_parse P hI fs h.1 h.2
+      omParse P text = rulesOnly P (fs.map (fun fam => (fam, fam.samples.map (parsedOf P)))) := by
+  obtain ⟨text, h1, _, h2⟩ := doc_parse P hI fs h.1 h.2
+  exact ⟨text, h1, h2⟩
 
 /-- non-vacuity: a counter with an adversarial label value and help, an exemplar with a float timestamp and a `_created` sample,
 followed by a gauge with a quoted UTF-8 name, a unit, a NaN value and a float timestamp -/
@@ -310,9 +318,9 @@ example : ExpressibleOM refP exFams := by
     · refine ⟨⟨by decide, valTok_ref' cs!"1.0" 2000000004 (by decide) (by decide) (by decide) (by decide), ?_, ?_⟩, by decide, by decide⟩
       · intro t ht; cases ht
       · intro e he; cases he
-        refine ⟨by decide, by decide, by decide, valTok_ref' cs!"0.5" 1000000004 (by decide) (by decide) (by decide) (by decide), ?_⟩
+        refine ⟨by decide, by decide, valTok_ref' cs!"0.5" 1000000004 (by decide) (by decide) (by decide) (by decide), ?_⟩
         intro t ht; cases ht
-        exact Or.inl ⟨false, cs!"7", cs!"25", rfl, by decide, by decide, by decide, by decide, by decide⟩
+        exact Or.inl ⟨false, cs!"7", cs!"25", rfl, by decide, by decide, by decide, by decide, fun h => absurd h (by decide)⟩
     · refine ⟨⟨by decide, valTok_ref' cs!"5.0" 10000000004 (by decide) (by decide) (by decide) (by decide), ?_, ?_⟩, by decide, by decide⟩
       · intro t ht; cases ht
       · intro e he; cases he
@@ -322,7 +330,7 @@ example : ExpressibleOM refP exFams := by
     subst hs
     refine ⟨⟨by decide, valTok_ref' cs!"nan" 0 (by decide) (by decide) (by decide) (by decide), ?_, ?_⟩, by decide, by decide⟩
     · intro t ht; cases ht
-      exact Or.inl ⟨false, cs!"1", cs!"5", rfl, by decide, by decide, by decide, by decide, by decide⟩
+      exact Or.inl ⟨false, cs!"1", cs!"5", rfl, by decide, by decide, by decide, by decide, fun h => absurd h (by decide)⟩
     · intro e he; cases he
 
 set_option maxRecDepth 100000 in
@@ -350,6 +358,40 @@ theorem count_without_sum_counterexample :
     (omParse refP cs!"# HELP h h\n# TYPE h histogram\nh_bucket{le=\"1.0\"} 0.0\nh_bucket{le=\"+Inf\"} 1.0\nh_count 1.0\nh_sum 0.5\n# EOF\n").toOption.isSome = true := by
   refine ⟨by decide, by decide, by decide, by decide, by decide⟩
 
+-- RuleClean and the rules of C15 ---------------------------------------------------------------------------------------------------
+
+open PromVerif.Spec.OMRules in
+/-- **`RuleClean` implies that none of the C15 rules is broken** — one direction of the link between the decidable predicate and
+the declarative rule predicates of `Spec/OMRules.lean`, for every rule that has a document-level theorem in C15: on the
+tokenised lines of the exposition (`docTokens`, which ARE `map parseLine ∘ docLines` of the exposed text: `om_exposition_tokens`)
+no rule predicate holds.  (Each C15 theorem says "rule broken ⇒ the family state machine raises"; `RuleClean` says it does not.)
+The converse — no rule broken ⇒ `RuleClean` — is not proved: it needs completeness of the C15 rule list with respect to the
+parser's checks, and F17 shows the list is NOT complete (`_count` without `_sum` is rejected but is not among the rules). -/
+theorem ruleClean_breaks_no_c15_rule (P : Params) (hI : IntLaw P.pyInt) (fs : List Family) (h : ExpressibleOM P fs) :
+    let ls := docTokens P fs
+    ¬ MissingEOF ls ∧ ¬ ContentAfterEOF ls ∧ ¬ BlankLine ls ∧ ¬ RepeatedMetadata ls ∧ ¬ LateMetadata ls ∧
+    ¬ InterleavedFamilies ls ∧ ¬ ClashingFamilies ls ∧ ¬ UnitNotSuffix ls ∧ ¬ UnitOnInfoOrStateset ls ∧
+    ¬ InfoNotOne P ls ∧ ¬ StatesetBadValue P ls ∧ ¬ StatesetNoLabel ls ∧ ¬ CounterLikeNaN P ls ∧ ¬ CounterLikeNegative P ls ∧
+    ¬ QuantileOutOfRange P ls ∧ ¬ CountNotIntegral P ls ∧ ¬ BucketBoundNaN P ls ∧ ¬ ExemplarIneligible ls ∧
+    ¬ HistBoundsNotIncreasingDoc P ls ∧ ¬ HistCountsNotCumulativeDoc P ls := by
+  obtain ⟨⟨hok, hadj⟩, hrc⟩ := h
+  have hass : isError (assemble P (docTokens P fs)) = false := by
+    rw [assemble_docTokens P hI fs hok hadj, hrc]; rfl
+  have no : ∀ {R : Prop}, (R → isError (assemble P (docTokens P fs)) = true) → ¬ R := fun f r => by
+    rw [f r] at hass; cases hass
+  exact ⟨no (C15.missing_eof P _), no (C15.content_after_eof P _), no (C15.blank_line P _), no (C15.repeated_metadata P _),
+    no (C15.late_metadata P _), no (C15.interleaved_families P _), no (C15.clashing_families P _), no (C15.unit_not_suffix P _),
+    no (C15.unit_on_info_or_stateset P _), no (C15.info_not_one P _), no (C15.stateset_bad_value P _), no (C15.stateset_no_label P _),
+    no (C15.counter_like_nan P _), no (C15.counter_like_negative P _), no (C15.quantile_out_of_range P _),
+    no (C15.count_not_integral P _), no (C15.bucket_bound_nan P _), no (C15.exemplar_ineligible P _),
+    no (C15.hist_bounds_not_increasing P _), no (C15.hist_counts_not_cumulative P _)⟩
+
+/-- the tokenised lines of the exposed text are `docTokens` -/
+theorem om_exposition_tokens (P : Params) (hI : IntLaw P.pyInt) (fs : List Family) (h : Expressible P fs) :
+    ∃ text, OMExpo.generateLatest fs = .ok text ∧ (docLines text).map (parseLine P) = docTokens P fs := by
+  obtain ⟨text, h1, h2, _⟩ := doc_parse P hI fs h.1 h.2
+  exact ⟨text, h1, h2⟩
+
 -- the converse -------------------------------------------------------------------------------------------------------------------
 
 /-- **the converse at line level — parse ∘ render ∘ parse = parse on sample lines**: for EVERY accepted sample line
@@ -359,11 +401,10 @@ that name and those labels and parsing it again gives the same name and the same
 
 `_partial`, what is missing: the remaining fields are re-rendered through `float()`/`repr()` (an accepted `1` comes back as `1.0`),
 which the model carries as tokens, so they appear as the hypotheses `hval`, `hts`, `hex` of the line-level round trip on the
-re-rendered tokens; `hts` excludes the parsed `Timestamp`s with a negative second count and a fraction — F10, the predicted
-counter-example (`negative_timestamp_counterexample`: `a 1 -1.5` → `Timestamp(-1, -500000000)` → `-1.-500000000` → ValueError)
-— `hex` the exemplars with a double quote in a label (F18); a document-level statement (families, duplicate suppression:
-finding F29 in the harness) is not proved.  `om_reparse_timestamp` and `parsed_timestamp_range` show the timestamp
-normalisation is idempotent exactly outside F10. -/
+re-rendered tokens (`hts` holds for every `Timestamp` the parser builds: `parsed_timestamp_range`, `om_reparse_timestamp` — F10, the
+predicted counter-example, is repaired: `negative_timestamp_regression`); an exemplar label set containing the metric-name slot
+(`# {"x"} 1` is accepted and parsed as `{'__name__': 'x'}`) is outside `ExOK`; a document-level statement (families, duplicate
+suppression: known finding F30 in the harness) is not proved. -/
 theorem om_reparse_partial (P : Params) (hI : IntLaw P.pyInt) (line : Str) (o : OSample) (hacc : parseSample P line = .ok o)
     (s : Sample) (hname : s.name = o.name) (hlabels : o.labels = some s.labels)
     (hval : ∃ b, ValTok P (Utils.floatToGoString s.value) b) (hts : ∀ t, s.ts = some t → TsOK P t.ts)
@@ -379,12 +420,14 @@ theorem om_reparse_partial (P : Params) (hI : IntLaw P.pyInt) (line : Str) (o : 
 theorem accepted_labels_ok (P : Params) (line : Str) (o : OSample) (hacc : parseSample P line = .ok o) :
     ∃ L, o.labels = some L ∧ LabelsOK P.legacy L := parseSample_labels_ok P line o hacc
 
-/-- **the timestamp normalisation is idempotent**: a `Timestamp` object outside F10 is a fixed point of render-then-parse -/
-theorem om_reparse_timestamp (P : Params) (hI : IntLaw P.pyInt) (s n : Int) (h0 : 0 ≤ n) (h1 : n < 1000000000) (h2 : s < 0 → n = 0) :
-    parseTimestamp P (OMExpo.tsStr (.stamp s n)) = .ok (some (.stamp s n)) := stamp_fixpoint P hI s n h0 h1 h2
+/-- **the timestamp normalisation is idempotent**: every `Timestamp` object (class invariant, `parsed_timestamp_range`) is a fixed
+point of render-then-parse -/
+theorem om_reparse_timestamp (P : Params) (hI : IntLaw P.pyInt) (s n : Int)
+    (h1 : 0 ≤ s → 0 ≤ n ∧ n < 1000000000) (h2 : s < 0 → -1000000000 < n ∧ n ≤ 0) :
+    parseTimestamp P (OMExpo.tsStr (.stamp s n)) = .ok (some (.stamp s n)) := stamp_fixpoint P hI s n h1 h2
 
-/-- the `Timestamp` objects the parser builds carry the sign of the second count in the nanosecond field; hence the only ones
-that are not fixed points (`om_reparse_timestamp`) are those with `sec < 0` and `nsec < 0`: exactly F10 -/
+/-- the `Timestamp` objects the parser builds carry the sign of the second count in the nanosecond field: they all satisfy the
+hypotheses of `om_reparse_timestamp` -/
 theorem parsed_timestamp_range (a b s n : Int) (h : mkTimestamp a b = .ok (.stamp s n)) :
     (0 ≤ s → 0 ≤ n ∧ n < 1000000000) ∧ (s < 0 → -1000000000 < n ∧ n ≤ 0) := mkTimestamp_range a b s n h
 
